@@ -58,7 +58,27 @@ structure Flags where
   /-- `resolve_parent_loop` leaves a loop whose changed entry has no tree path (a loop of new
   entries) alone (true) or calls `get_tree_parent` on it, which raises KeyError (false) -/
   loopGuarded : Bool
+  /-- `resolve_unversioned_parent` leaves a parent that has no inactive file id alone (true: the
+  conflict stays and ends as MalformedTransform) or calls `version_file(file_id=None)`, which
+  raises ValueError (false) -/
+  upSkipsIdless : Bool := false
+  /-- `resolve_non_directory_parent` releases the file id of the parent (`cancel_versioning`,
+  `unversion_file`) *before* it creates the replacement directory with that id (true), or only
+  unversions it afterwards (false: DuplicateKey when the id was assigned in this transform) -/
+  npReleasesId : Bool := false
+  /-- bzr: `_add_tree_children` catches the NoSuchFile of `stored_kind` for an unversioned path in
+  `_removed_id`, and `_generate_inventory_delta` skips such paths (true); false: NoSuchFile -/
+  unversionTolerant : Bool := false
+  /-- bzr: `_generate_inventory_delta` also removes the tree file id of an entry that is given
+  another id without `unversion_file` (true) -/
+  deltaDropsOldId : Bool := false
   deriving DecidableEq, Repr
+
+/-- the preview accessors read an unmodified entry at its tree path -/
+def Flags.previewFixed (fl : Flags) : Bool := fl.dataByTreePath && fl.execByTreePath
+
+/-- the resolvers use `by_parent().get`, guard `cancel_creation` and leave loops of new entries alone -/
+def Flags.resolversFixed (fl : Flags) : Bool := fl.childrenGet && fl.cancelGuarded && fl.loopGuarded
 
 structure TT where
   base : List Base
@@ -262,7 +282,7 @@ def TT.duplicateIds (tt : TT) : List Conflict :=
 path in `_removed_id`; that raises NoSuchFile when the path is not versioned
 (the git variant catches it) -/
 def TT.addTreeChildrenRaises (fl : Flags) (tt : TT) : Bool :=
-  !fl.git && tt.removedId.any (fun t => t < tt.nbase && (tt.treeFid t).isNone)
+  !fl.git && !fl.unversionTolerant && tt.removedId.any (fun t => t < tt.nbase && (tt.treeFid t).isNone)
 
 /-- `find_raw_conflicts` (bzr: `InventoryTreeTransform`, git: `TreeTransformBase` of git/transform.py) -/
 def TT.findRawConflicts (fl : Flags) (tt : TT) : List Conflict :=
@@ -274,6 +294,7 @@ def TT.findRawConflicts (fl : Flags) (tt : TT) : List Conflict :=
 
 inductive Err where
   | duplicateKey | cantMoveRoot | keyError | noFinalPath | malformed | valueError | isADirectory | fileExists
+  | renameFailed | inconsistentDelta
   deriving DecidableEq, Repr
 
 def TT.root : Tid := 0
@@ -427,16 +448,25 @@ def TT.resolveMissingParent (fl : Flags) (tt : TT) (t : Tid) : Except Err TT :=
 
 def TT.resolveUnversionedParent (fl : Flags) (tt : TT) (t : Tid) : Except Err TT :=
   match tt.treeFid t with
-  | none => .error .valueError          -- version_file(trans_id, file_id=None)
+  | none =>
+    if fl.upSkipsIdless then .ok tt         -- nothing to re-activate: the conflict stays
+    else .error .valueError               -- version_file(trans_id, file_id=None)
   | some f => tt.versionFile fl t f
 
 def TT.resolveNonDirParent (fl : Flags) (tt : TT) (p : Tid) : Except Err TT :=
   match tt.finalParent p, tt.finalName p with
   | some (some pp), some n => do
     let fid := if fl.git then some "" else tt.finalFid p
-    let (tt, nd) ← tt.newEntry fl (n ++ ".new") pp .dir "" fid none
-    let tt ← tt.reparentChildren fl p nd
-    pure (if fid.isSome then tt.unversionFile p else tt)
+    if fl.npReleasesId then
+      let tt := if fid.isSome then
+          (match tt.cancelVersioning p with | .ok tt' => tt' | .error _ => tt).unversionFile p
+        else tt
+      let (tt, nd) ← tt.newEntry fl (n ++ ".new") pp .dir "" fid none
+      tt.reparentChildren fl p nd
+    else
+      let (tt, nd) ← tt.newEntry fl (n ++ ".new") pp .dir "" fid none
+      let tt ← tt.reparentChildren fl p nd
+      pure (if fid.isSome then tt.unversionFile p else tt)
   | some none, some _ => .error .valueError
   | _, _ => .error .keyError
 
@@ -491,17 +521,6 @@ def Conflict.key : Conflict → String
 def Conflict.hasResolver : Conflict → Bool
   | .unversionedExec _ | .nonFileExec _ | .overwrite _ _ => false
   | _ => true
-
-inductive Outcome where
-  | applied (tt : TT)
-  | raised (e : Err)
-
-/-- `resolve_conflicts(tt); tt.apply()` (`apply` starts with `_check_malformed`) -/
-def TT.resolveAndApply (fl : Flags) (tt : TT) : Outcome :=
-  match tt.resolveConflicts fl with
-  | .clean tt' => if (tt'.findRawConflicts fl).isEmpty then .applied tt' else .raised .malformed
-  | .malformed _ => .raised .malformed
-  | .crashed e => .raised e
 
 /-! ### the result as a tree: entries per trans-id, then the path walk -/
 
@@ -652,11 +671,17 @@ def TT.applyInsertions (tt : TT) (d : Disk) : Disk :=
 
 def TT.applyDisk (tt : TT) : Disk := tt.applyInsertions (tt.applyRemovals tt.baseDisk)
 
-/-- the disk after `resolve_conflicts(tt); tt.apply()` -/
-def TT.diskAfter (fl : Flags) (tt : TT) : Disk :=
-  match tt.resolveAndApply fl with
-  | .applied tt' => tt'.applyDisk
-  | .raised _ => tt.baseDisk
+/-- the path of a trans-id read off a disk: names along the directory entries (`parent`, `name`)
+of the inode table, from the root down -/
+def diskPath (d : Disk) : Nat → Tid → Option (List String)
+  | 0, _ => none
+  | fuel + 1, t =>
+    if t = TT.root then some []
+    else match d[t]? with
+      | some i => match i.parent with
+        | some p => (diskPath d fuel p).map (· ++ [i.name])
+        | none => none
+      | none => none
 
 /-! #### apply: bzr inventory -/
 
@@ -688,39 +713,128 @@ inductive DeltaItem where
   | put (fid : String) (e : InvEntry)
   deriving DecidableEq, Repr
 
-/-- the new inventory entry `_generate_inventory_delta` builds for trans-id `t` with final file id `f` -/
-def TT.deltaEntry (tt : TT) (t : Tid) (f : String) : InvEntry :=
-  let kind := match tt.finalKind t with
-    | some k => some k
-    | none => (tt.tidOfTreeFid f).bind tt.treeKind     -- stored_kind(id2path(file_id))
-  { parentFid := ((tt.finalParent t).getD none).bind tt.finalFid, name := (tt.finalName t).getD "", kind := kind }
+/-- the new inventory entry `_generate_inventory_delta` builds for trans-id `t` with final file id `f`;
+`none` = `final_name` raises NoFinalPath / `final_parent` raises KeyError -/
+def TT.deltaEntry (tt : TT) (t : Tid) (f : String) : Option InvEntry :=
+  match tt.finalParent t, tt.finalName t with
+  | some pp, some n =>
+    let kind := match tt.finalKind t with
+      | some k => some k
+      | none => (tt.tidOfTreeFid f).bind tt.treeKind     -- stored_kind(id2path(file_id))
+    some { parentFid := pp.bind tt.finalFid, name := n, kind := kind }
+  | _, _ => none
 
-/-- `_generate_inventory_delta` -/
-def TT.generateDelta (tt : TT) : List DeltaItem :=
-  let removals := tt.removedId.filterMap fun t =>
+/-- trans-ids that are versioned in the tree, keep that file id (no `unversion_file`) and get
+another one by `version_file`: the delta adds the new id at a path the old id still occupies -/
+def TT.reversioned (tt : TT) : List Tid :=
+  tt.ids.filter fun t =>
+    match alookup tt.newId t, tt.treeFid t with
+    | some f, some g => f != g && !tt.removedId.contains t
+    | _, _ => false
+
+/-- the removal items of `_generate_inventory_delta` -/
+def TT.deltaRemovals (fl : Flags) (tt : TT) : List DeltaItem :=
+  (tt.removedId.filterMap fun t =>
     match tt.treeFid t with
     | some f => if tt.newId.any (fun e => e.2 == f) then none else some (DeltaItem.remove f)
-    | none => none
-  let puts := tt.inventoryAltered.filterMap fun t =>
+    | none => none) ++
+  (if fl.deltaDropsOldId then
+    tt.reversioned.filterMap fun t =>
+      match tt.treeFid t with
+      | some g => if tt.newId.any (fun e => e.2 == g) then none else some (DeltaItem.remove g)
+      | none => none
+   else [])
+
+/-- the new-entry items of `_generate_inventory_delta`; an altered id without a final path makes
+`FinalPaths.get_paths` (in `_inventory_altered`) raise NoFinalPath -/
+def TT.deltaPuts (tt : TT) : Except Err (List DeltaItem) :=
+  if tt.inventoryAltered.any (fun t => (tt.pathOf t).isNone) then .error .noFinalPath
+  else .ok (tt.inventoryAltered.filterMap fun t =>
     match tt.finalFid t with
     | none => none
-    | some f => some (DeltaItem.put f (tt.deltaEntry t f))
-  removals ++ puts
+    | some f => (tt.deltaEntry t f).map (DeltaItem.put f))
+
+/-- `_generate_inventory_delta` -/
+def TT.generateDelta (fl : Flags) (tt : TT) : Except Err (List DeltaItem) :=
+  match tt.deltaPuts with
+  | .ok puts => .ok (tt.deltaRemovals fl ++ puts)
+  | .error e => .error e
 
 def applyDelta (inv : Inv) : List DeltaItem → Inv
   | [] => inv
   | .remove f :: rest => applyDelta (inv.filter (fun e => e.1 != f)) rest
   | .put f e :: rest => applyDelta (inv.filter (fun x => x.1 != f) ++ [(f, e)]) rest
 
-def TT.appliedInv (tt : TT) : Inv := applyDelta tt.baseInv tt.generateDelta
+/-- the inventory after `apply_inventory_delta` (the base inventory when no delta can be generated) -/
+def TT.appliedInv (fl : Flags) (tt : TT) : Inv :=
+  match tt.generateDelta fl with
+  | .ok d => applyDelta tt.baseInv d
+  | .error _ => tt.baseInv
+
+/-- what `update_by_delta` checks of the result: no two entries share a directory entry
+(parent file id, name), and every parent file id is present and a directory -/
+def invConsistent (inv : Inv) : Bool :=
+  inv.all fun e =>
+    (inv.all fun e' => e'.1 == e.1 || !(e'.2.parentFid == e.2.parentFid && e'.2.name == e.2.name)) &&
+    (match e.2.parentFid with
+     | none => true
+     | some pf => inv.any fun e' => e'.1 == pf && e'.2.kind == some .dir)
 
 /-! #### apply: git index (paths of versioned non-directories) -/
 
-/-- `_generate_index_changes` + `_apply_index_changes`: the index after apply -/
+/-- is a proper ancestor of `t` in the *base* tree a directory the transform renames or re-parents? -/
+def TT.belowMovedDir (tt : TT) : Nat → Tid → Bool
+  | 0, _ => false
+  | fuel + 1, t =>
+    match (tt.base[t]?).bind (·.parent) with
+    | none => false
+    | some p => (p != TT.root && tt.pathChanged p && tt.treeKind p == some .dir) || tt.belowMovedDir fuel p
+
+/-- versioned non-directories below a moved directory: `_generate_index_changes` re-keys them -/
+def TT.reindexed (tt : TT) : List Tid :=
+  (List.range tt.nbase).filter fun t =>
+    (tt.treeFid t).isSome && (tt.treeKind t).isSome && tt.treeKind t != some .dir && tt.belowMovedDir (tt.nbase + 1) t
+
+/-- `removed_id` of `_generate_index_changes` -/
+def TT.gitRemoved (tt : TT) : List Tid :=
+  tt.ids.filter fun t =>
+    tt.removedId.contains t || tt.removedContents.contains t || ahas tt.newName t || ahas tt.newParent t ||
+    tt.reindexed.contains t
+
+/-- `changed_ids` of `_generate_index_changes` -/
+def TT.gitChanged (tt : TT) : List Tid :=
+  tt.ids.filter fun t =>
+    ahas tt.newName t || ahas tt.newParent t || ahas tt.newExec t || ahas tt.newContents t || ahas tt.newId t ||
+    tt.reindexed.contains t
+
+def TT.gitBaseIndex (tt : TT) : List (List String) :=
+  (List.range tt.nbase).filterMap fun t =>
+    if (tt.treeFid t).isSome && tt.treeKind t ≠ some .dir then tt.treePath (tt.nbase + 1) t else none
+
+/-- paths `_apply_index_changes` adds: changed ids that end versioned, as a file or symlink -/
+def TT.gitAdded (tt : TT) : List (List String) :=
+  tt.gitChanged.filterMap fun t =>
+    match tt.finalKind t with
+    | none => none
+    | some .dir => none               -- `_index_add_entry`: git indexes don't contain directories
+    | some _ => if tt.finalVersioned t then tt.pathOf t else none
+
+/-- paths `_apply_index_changes` deletes: tree paths of `removed_id`, and changed ids that end as
+versioned directories -/
+def TT.gitDeleted (tt : TT) : List (List String) :=
+  tt.gitRemoved.filterMap (tt.treePath (tt.nbase + 1)) ++
+  tt.gitChanged.filterMap fun t =>
+    if tt.finalKind t = some .dir && tt.finalVersioned t then tt.pathOf t else none
+
+/-- `_generate_index_changes` + `_apply_index_changes`: the index after apply (an added path
+overrides a deletion of the same path: `changes` is a dict keyed by path, additions come last) -/
 def TT.gitIndex (tt : TT) : List (List String) :=
+  (tt.gitBaseIndex.filter fun p => !tt.gitDeleted.contains p && !tt.gitAdded.contains p) ++ tt.gitAdded
+
+/-- `_generate_index_changes` as it was before fix a33311f: ids that only become versioned and the
+children of moved directories are not looked at -/
+def TT.gitIndexPinned (tt : TT) : List (List String) :=
   let treeP (t : Tid) := tt.treePath (tt.nbase + 1) t
-  let baseIdx := (List.range tt.nbase).filterMap fun t =>
-    if (tt.treeFid t).isSome && tt.treeKind t ≠ some .dir then treeP t else none
   let removedIds := tt.ids.filter fun t =>
     tt.removedId.contains t || tt.removedContents.contains t || ahas tt.newName t || ahas tt.newParent t
   let removedPaths := removedIds.filterMap treeP
@@ -729,11 +843,11 @@ def TT.gitIndex (tt : TT) : List (List String) :=
   let added := changed.filterMap fun t =>
     match tt.finalKind t with
     | none => none
-    | some .dir => none               -- `_index_add_entry`: git indexes don't contain directories
+    | some .dir => none
     | some _ => if tt.finalVersioned t then tt.pathOf t else none
   let addedDirsDel := changed.filterMap fun t =>
     if tt.finalKind t = some .dir && tt.finalVersioned t then tt.pathOf t else none
-  (baseIdx.filter fun p => !removedPaths.contains p && !addedDirsDel.contains p && !added.contains p) ++ added
+  (tt.gitBaseIndex.filter fun p => !removedPaths.contains p && !addedDirsDel.contains p && !added.contains p) ++ added
 
 /-! #### the applied tree, per trans-id -/
 
@@ -756,7 +870,7 @@ def TT.appliedEntry (fl : Flags) (tt : TT) (t : Tid) (p : List String) : Entry :
   match tt.applyDisk[t]? with
   | none => { kind := none, versioned := false }
   | some i =>
-    let versioned := if fl.git then tt.gitIndex.any (fun q => p.isPrefixOf q) else invHasPath tt.appliedInv p
+    let versioned := if fl.git then tt.gitIndex.any (fun q => p.isPrefixOf q) else invHasPath (tt.appliedInv fl) p
     let kind := if i.attached then i.kind else none
     { kind := kind, data := if kind = some .file ∨ kind = some .symlink then i.data else "",
       exec := kind = some .file && i.exec, versioned := versioned }
@@ -774,6 +888,94 @@ def TT.finalEntry (tt : TT) (t : Tid) : Entry :=
     | none => tt.treeKind t = some .file && tt.treeExec t)
   { kind := kind, data := data, exec := exec, versioned := tt.finalVersioned t }
 
+/-! #### apply as a whole: the phases and where they can fail -/
+
+/-- tree ids without contents whose path changes and whose final parent is a file: nothing is in
+limbo for them, and `os.rename(limbo/<id>, <file>/<name>)` fails with ENOTDIR (not the ENOENT that
+`_apply_insertions` swallows) -/
+def TT.dangling (tt : TT) : List Tid :=
+  tt.ids.filter fun t =>
+    t != TT.root && decide (t < tt.nbase) && tt.pathChanged t && (tt.finalKind t).isNone &&
+    !tt.removedContents.contains t &&
+    (match tt.finalParent t with
+     | some (some p) => tt.finalKind p == some .file
+     | _ => false)
+
+/-- trans-ids without final contents that are versioned, below a final parent that is a file or a
+symlink: `_parent_type_conflicts` does not look at children without contents, the inventory delta
+puts the entry below a non-directory -/
+def TT.versionedBelowNonDir (tt : TT) : List Tid :=
+  tt.ids.filter fun t =>
+    t != TT.root && (tt.finalKind t).isNone && tt.finalVersioned t &&
+    (match tt.finalParent t with
+     | some (some p) => (tt.finalKind p).isSome && tt.finalKind p != some .dir
+     | _ => false)
+
+inductive Outcome where
+  | applied (tt : TT) (disk : Disk)      -- `apply()` returned
+  | raised (e : Err) (disk : Disk)       -- an exception; `disk` is what is left behind
+
+/-- `tt.apply()`: `_check_malformed`, `_generate_inventory_delta` (bzr), the removal and
+insertion phases (a failing rename is rolled back by the `_FileMover`), then — outside the
+rollback — `apply_inventory_delta` (bzr), which refuses an inconsistent delta *after* the files
+have been moved.  `d0` is the disk before. -/
+def TT.apply (fl : Flags) (tt : TT) (d0 : Disk) : Outcome :=
+  if !(tt.findRawConflicts fl).isEmpty then .raised .malformed d0
+  else match (if fl.git then .ok [] else tt.generateDelta fl) with
+    | .error e => .raised e d0
+    | .ok d =>
+      if !tt.dangling.isEmpty then .raised .renameFailed d0
+      else if !fl.git && !invConsistent (applyDelta tt.baseInv d) then .raised .inconsistentDelta tt.applyDisk
+      else .applied tt tt.applyDisk
+
+/-- `resolve_conflicts(tt); tt.apply()` on the disk the transform was made for -/
+def TT.resolveAndApply (fl : Flags) (tt : TT) : Outcome :=
+  match tt.resolveConflicts fl with
+  | .clean tt' => tt'.apply fl tt.baseDisk
+  | .malformed _ => .raised .malformed tt.baseDisk
+  | .crashed e => .raised e tt.baseDisk
+
+def Outcome.disk : Outcome → Disk
+  | .applied _ d => d
+  | .raised _ d => d
+
+/-- the disk after `resolve_conflicts(tt); tt.apply()` -/
+def TT.diskAfter (fl : Flags) (tt : TT) : Disk := (tt.resolveAndApply fl).disk
+
+/-- what can be seen of an inode from outside: nothing but "not there" unless it has a directory entry -/
+def Inode.observe (i : Inode) : Inode := if i.attached && i.kind.isSome then i else Inode.empty
+
+/-- do two disks show the same tree? (ids beyond the shorter table have no inode) -/
+def diskSame (a b : Disk) : Bool :=
+  (List.range (max a.length b.length)).all fun t =>
+    ((a[t]?).getD Inode.empty).observe == ((b[t]?).getD Inode.empty).observe
+
+/-- the paths found on the applied disk: every inode with a directory entry, at the path its
+directory entries spell -/
+def TT.appliedPaths (tt : TT) : List (Tid × List String) :=
+  tt.ids.filterMap fun t =>
+    if t = TT.root then none
+    else match tt.applyDisk[t]? with
+      | some i => if i.attached && i.kind.isSome then (diskPath tt.applyDisk (tt.next + 1) t).map (fun p => (t, p)) else none
+      | none => none
+
+/-- well-formed transform state (what the operations of `TT.step` and the resolvers keep): tree
+ids come first, the maps `_new_name` / `_new_parent` only mention known ids, and an id that is
+not a tree id was made by `create_path` (it has a name and a parent) -/
+def TT.wf (tt : TT) : Bool :=
+  decide (0 < tt.nbase) && decide (tt.nbase ≤ tt.next) &&
+  tt.newName.all (fun e => decide (e.1 < tt.next)) && tt.newParent.all (fun e => decide (e.1 < tt.next)) &&
+  (tt.ids.all fun t => decide (t < tt.nbase) || (ahas tt.newName t && ahas tt.newParent t))
+
+/-- well-formed base tree: the root is entry 0, every other registered path has its parent
+directory registered before it (the harness registers paths in sorted order) -/
+def TT.baseWf (tt : TT) : Bool :=
+  (tt.base[0]?).map (·.parent) == some none &&
+  (List.range tt.nbase).all fun t => t == 0 ||
+    (match (tt.base[t]?).bind (·.parent) with
+     | some p => decide (p < t)
+     | none => false)
+
 /-! #### path walk (what a dump of either tree enumerates) -/
 
 /-- trans-ids with their paths, for everything below the root that exists -/
@@ -789,5 +991,73 @@ def TT.shadowed (tt : TT) : List (List String) :=
   let dead := tt.ids.filterMap fun t =>
     if t ≠ TT.root && !tt.live t && (tt.finalParent t).isSome then tt.pathOf t else none
   (tt.livePaths.filter fun e => dead.any (fun d => d.isPrefixOf e.2)).map (·.2)
+
+/-- every registered path that exists has a parent directory that exists (a real tree) -/
+def TT.baseDirs (tt : TT) : Bool :=
+  (List.range tt.nbase).all fun c => c == 0 || !(tt.treeKind c).isSome ||
+    (match (tt.base[c]?).bind (·.parent) with
+     | some p => tt.treeKind p == some .dir
+     | none => false)
+
+/-- versioned tree paths exist on disk (the harness versions what it created) -/
+def TT.versionedExist (tt : TT) : Bool :=
+  (List.range tt.nbase).all fun c => !(tt.treeFid c).isSome || (tt.treeKind c).isSome
+
+/-- distinct trans-ids are registered for distinct tree paths -/
+def TT.treePathsInj (tt : TT) : Bool :=
+  (List.range tt.nbase).all fun a => (List.range tt.nbase).all fun b =>
+    a == b || (tt.treePath (tt.nbase + 1) a).isNone || tt.treePath (tt.nbase + 1) a != tt.treePath (tt.nbase + 1) b
+
+/-- no two live trans-ids end at the same path (what `_duplicate_entries` is there to ensure) -/
+def TT.livePathsInj (tt : TT) : Bool :=
+  tt.livePaths.all fun a => tt.livePaths.all fun b => a.1 == b.1 || a.2 != b.2
+
+/-- the hypotheses of `gitIndex_eq_final`, evaluated by the driver on every conflict-free
+transform the harness reaches -/
+def TT.gitHyps (tt : TT) : Bool :=
+  tt.wf && tt.baseWf && tt.baseDirs && tt.versionedExist && tt.treePathsInj && tt.livePathsInj &&
+  tt.finalKind TT.root == some .dir
+
+/-- the fuels of `pathOf` and of the `_parent_loops` walk are enough for this state: twice the
+fuel gives the same answers (by `finalPath_mono` / `loopWalk_mono` more fuel can only turn "no
+answer" into an answer; the driver evaluates this on every transform the harness reaches) -/
+def TT.fuelOk (tt : TT) : Bool :=
+  (tt.ids.all fun t => tt.finalPath (tt.next + 1) t == tt.finalPath (2 * tt.next + 2) t) &&
+  (tt.newParent.all fun e => tt.loopWalk e.1 (tt.next + 2) e.1 [] == tt.loopWalk e.1 (2 * tt.next + 4) e.1 [])
+
+/-- distinct tree paths carry distinct file ids -/
+def TT.baseFidsInj (tt : TT) : Bool :=
+  (List.range tt.nbase).all fun a => (List.range tt.nbase).all fun b =>
+    a == b || (tt.treeFid a).isNone || tt.treeFid a != tt.treeFid b
+
+/-- no two trans-ids end with the same file id (what `_duplicate_ids` and `_r_new_id` are there to ensure) -/
+def TT.finalFidInj (tt : TT) : Bool :=
+  tt.ids.all fun a => tt.ids.all fun b => a == b || (tt.finalFid a).isNone || tt.finalFid a != tt.finalFid b
+
+/-- a versioned entry has a versioned parent (what `_unversioned_parents` is there to ensure) -/
+def TT.parentsVersioned (tt : TT) : Bool :=
+  tt.ids.all fun t => !tt.finalVersioned t ||
+    (match tt.finalParent t with
+     | some (some p) => tt.finalVersioned p
+     | _ => true)
+
+/-- `_new_id` is a dict over known trans-ids: one entry per key -/
+def TT.newIdFunctional (tt : TT) : Bool :=
+  tt.newId.all fun e => decide (e.1 < tt.next) && alookup tt.newId e.1 == some e.2
+
+/-- new contents only where there are none or where they are deleted (what `_overwrite_conflicts` ensures) -/
+def TT.noOverwrite (tt : TT) : Bool :=
+  tt.newContents.all fun e => (tt.treeKind e.1).isNone || tt.removedContents.contains e.1
+
+/-- the root stays the root (no name, no parent) and nothing else is parentless -/
+def TT.rootHyps (tt : TT) : Bool :=
+  tt.finalParent TT.root == some none && tt.finalName TT.root == some "" &&
+  tt.ids.all fun t => t == TT.root || tt.finalParent t != some none
+
+/-- the hypotheses of `delta_sound`, evaluated by the driver on every conflict-free bzr
+transform the harness reaches -/
+def TT.bzrHyps (tt : TT) : Bool :=
+  tt.wf && tt.baseFidsInj && tt.finalFidInj && tt.parentsVersioned && tt.newIdFunctional && tt.noOverwrite &&
+  tt.versionedExist && tt.reversioned.isEmpty
 
 end BreezyVerif.C14
